@@ -177,6 +177,9 @@ def ann(desc, strict=False):
         r = {"int": int, "str": str, "float": float, "bool": bool}[desc]
     elif "c" in desc:
         r = Rule.annotate(ann(desc["c"]), constraints={k: v for k, v in desc.items() if k != "c"})
+    elif "opt" in desc:
+        from typing import Optional
+        r = Optional[ann(desc["opt"], strict)]
     elif cons_of(desc):
         # a container with validators of its own: Rule.annotate(list, T, constraints={'max_length': 2})
         kind, elems = top(desc)
@@ -253,8 +256,14 @@ def cons_ok(desc, enc_value):
     return True
 
 
+def is_union(desc):
+    return isinstance(desc, dict) and "opt" in desc
+
+
 def top(desc):
-    """(kind, element descriptors) of a container descriptor"""
+    """(kind, element descriptors) of a container descriptor (looking through Optional[...])"""
+    if is_union(desc):
+        return top(desc["opt"])
     for k in SEQ_KINDS:
         if isinstance(desc, dict) and k in desc:
             return k, [desc[k]]
@@ -272,6 +281,8 @@ def reads_policy(desc, which):
         return False
     if "c" in desc:
         return False
+    if "opt" in desc:
+        return reads_policy(desc["opt"], which)
     if "schema" in desc or "data" in desc:
         return False                # a nested data class is parsed under its own __options__
     kind, elems = top(desc)
@@ -384,9 +395,15 @@ def impl_container(case):
     except Exception:
         res["probe"] = {"items": None}
         return res
+    # the union's two trial stages: stricter conversion preferences, and (after the repair) the invalid_* policies at throw
+    TRIAL = dict(invalid_items="throw", invalid_keys="throw", invalid_values="throw")
+    MODES = [dict(TRIAL, no_data_loss=True, no_explicit_cast=True), dict(TRIAL, no_data_loss=True)]
     if kind in SEQ_KINDS:
         raws = list(coerced)
         items = [[enc(x), conv(elems[0], x, opts)] for x in raws]
+        if is_union(desc):
+            # the element's conversion under the preferences of the union's two trial stages
+            items = [r + [conv(elems[0], x, dict(opts, **m)) for m in MODES] for r, x in zip(items, raws)]
         res["probe"] = {"items": items}
         if not reads_policy(elems[0], "invalid_items"):
             kept = [x for x, it in zip(raws, items) if it[1] is not None]
@@ -403,6 +420,10 @@ def impl_container(case):
         kt, vt = elems
         rows = [[enc(k), enc(v), conv(kt, k, opts), conv(vt, v, opts) if vt is not None else None]
                 for k, v in coerced.items()]
+        if is_union(desc):
+            rows = [r + [c for m in MODES for c in (conv(kt, k, dict(opts, **m)),
+                                                     conv(vt, v, dict(opts, **m)) if vt is not None else None)]
+                    for r, (k, v) in zip(rows, coerced.items())]
         res["probe"] = {"items": rows}
         pk, pv = opts.get("invalid_keys", "throw"), opts.get("invalid_values", "throw")
         if pk != "preserve" and pv != "preserve" and not any(
@@ -602,8 +623,14 @@ def clean_data(kdesc, data):
 
 
 def step_case(case, st):
-    """a step of a sequence seen as a single data-class case under its running options"""
-    return {"op": "schema", "fields": case["fields"], "props": [], "opts": st["ropts"], "data": st["data"]}
+    """a step of a sequence seen as a single data-class case under its running (call-level) options.  The TYPE of the
+    extra keys is fixed when the class is declared (`parser.addition_type`); whether extra keys are taken at all, and
+    the policy for their values, come from the options of the call."""
+    ro = dict(st["ropts"])
+    cadd = case["opts"].get("addition")
+    if ro.get("addition") is True and isinstance(cadd, (dict, str)):
+        ro["addition"] = cadd
+    return {"op": "schema", "fields": case["fields"], "props": [], "opts": ro, "data": st["data"]}
 
 
 def impl_sequence(case):
@@ -622,8 +649,12 @@ def impl_sequence(case):
         fresh = outcome(lambda: _schema_class(kcase, fresh=True).__from__(data, _options(ro)))
         tables = {f["name"]: ([[enc(data[f["name"]]), conv_field(f, data[f["name"]], ro)]] if f["name"] in data else [])
                   for f in case["fields"]}
+        cadd = case["opts"].get("addition")
+        names = {f["name"] for f in case["fields"]}
+        add_table = [[enc(v), conv(cadd, v, {k: w for k, w in ro.items() if k != "addition"})]
+                     for k, v in data.items() if k not in names] if isinstance(cadd, (dict, str)) else []
         steps.append({"out": shared, "fresh": fresh, "strict": None,
-                      "probe": {"tables": tables, "add_table": [], "prop_tables": {}}})
+                      "probe": {"tables": tables, "add_table": add_table, "prop_tables": {}}})
     return {"steps": steps}
 
 
@@ -752,7 +783,7 @@ def rand_opts(rng):
     return {"invalid_items": rng.choice(POLICIES), "invalid_keys": rng.choice(POLICIES), "invalid_values": rng.choice(POLICIES)}
 
 
-def gen_seq(rng, kind=None, pattern=None, opts=None, via=None, ename=None, form=None, cons="?"):
+def gen_seq(rng, kind=None, pattern=None, opts=None, via=None, ename=None, form=None, cons="?", union=None):
     kind = kind or rng.choice(SEQ_KINDS)
     ename = ename or rng.choice(HASHABLE_ELEMS if kind in ("set", "frozenset") else ALL_ELEMS)
     pattern = rand_pattern(rng) if pattern is None else pattern
@@ -770,6 +801,10 @@ def gen_seq(rng, kind=None, pattern=None, opts=None, via=None, ename=None, form=
                                {"min_length": 1, "max_length": rng.choice([2, 3])}, {"unique_items": True}])
     if cons:
         tdesc.update(cons)
+    if union is None:
+        union = not cons and form == kind and rng.random() < 0.2
+    if union:
+        tdesc = {"opt": tdesc}      # the container is a condition of a union: Optional[List[T]]
     return {"op": "container", "type": tdesc, "opts": opts or rand_opts(rng),
             "via": via or rng.choice(["rule", "rule", "rule", "schema", "func"]), "value": enc(value),
             "pattern": pattern}
@@ -779,7 +814,7 @@ KEY_TYPES = ["int", "posint", "str3"]
 VAL_TYPES = ["int", "str3", "posint", None, "list_int", "pt"]
 
 
-def gen_map(rng, entries=None, opts=None, via=None, kname=None, vname="?"):
+def gen_map(rng, entries=None, opts=None, via=None, kname=None, vname="?", union=None):
     kname = kname or rng.choice(KEY_TYPES)
     vname = rng.choice(VAL_TYPES) if vname == "?" else vname
     if entries is None:
@@ -803,7 +838,11 @@ def gen_map(rng, entries=None, opts=None, via=None, kname=None, vname="?"):
         seen.add(k)
         pairs.append([enc(k), enc(v)])
     tdesc = {"dict": [kdesc, vdesc]}
-    if rng.random() < 0.1:
+    if union is None:
+        union = rng.random() < 0.2
+    if union:
+        tdesc = {"opt": tdesc}
+    elif rng.random() < 0.1:
         tdesc.update(rng.choice([{"min_length": 2}, {"max_length": 2}]))
     return {"op": "container", "type": tdesc, "opts": opts or rand_opts(rng),
             "via": via or rng.choice(["rule", "rule", "rule", "schema", "func"]), "value": {"d": pairs},
@@ -977,7 +1016,8 @@ RUN_KINDS = {
 }
 
 
-def gen_sequence(rng, fields=None, kinds=None, patterns=None, dfs=None, invs=None):
+def gen_sequence(rng, fields=None, kinds=None, patterns=None, dfs=None, invs=None, addition="?", cinv=None,
+                 radds=None, xpats=None):
     """several parses of ONE declared class with differing running options (`Cls.__from__(data, Options(...))`)"""
     if fields is None:
         fields = [gen_field(rng, nm, shape=rng.choice(["required", "required", "default", "optional", "modereq",
@@ -985,15 +1025,28 @@ def gen_sequence(rng, fields=None, kinds=None, patterns=None, dfs=None, invs=Non
                             on_error=rng.choice([None, None, "preserve", "throw"]), tname=rng.choice(["int", "posint", "str3"]))
                   for nm in FIELD_NAMES[: rng.choice([1, 2, 2, 3])]]
     kinds = kinds or [rng.choice(list(RUN_KINDS)) for _ in range(rng.choice([2, 2, 3, 4]))]
-    copts = {"invalid_values": rng.choice(POLICIES), "data_first_search": rng.choice([True, False])}
+    copts = {"invalid_values": cinv or rng.choice(POLICIES), "data_first_search": rng.choice([True, False])}
+    if addition == "?":
+        addition = rng.choice([None, None, "int", "str3"])
+    if addition:
+        copts["addition"] = LEAVES[addition]        # typed extra keys, declared at class level
     steps = []
     for i, kd in enumerate(kinds):
         ro = dict(RUN_KINDS[kd])
+        # call-level options REPLACE the class's: policy (and whether extra keys are taken) may differ from the declaration
         ro["invalid_values"] = invs[i] if invs else rng.choice(["exclude", "exclude", "throw", "preserve"])
         ro["data_first_search"] = rng.choice([True, False]) if dfs is None else dfs
+        if addition:
+            ra = radds[i] if radds else rng.choice([True, True, True, None, False])
+            if ra is not None:
+                ro["addition"] = ra
         pat = patterns[i] if patterns else None
-        steps.append({"kind": kd, "ropts": ro,
-                      "data": [[k, enc(v)] for k, v in gen_instance(rng, {"fields": fields}, bad_rate=0.35, pattern=pat).items()]})
+        data = [[k, enc(v)] for k, v in gen_instance(rng, {"fields": fields}, bad_rate=0.35, pattern=pat).items()]
+        if addition:
+            xp = xpats[i] if xpats else [rng.choice(["good", "bad"]) for _ in range(rng.choice([0, 1, 2]))]
+            data += [[f"x{j}", enc(rng.choice(GOOD[addition] if q == "good" else BAD[addition]))] for j, q in enumerate(xp)]
+            rng.shuffle(data)
+        steps.append({"kind": kd, "ropts": ro, "data": data})
     return {"op": "sequence", "fields": fields, "opts": copts, "steps": steps, "pattern": "+".join(kinds)}
 
 
@@ -1061,11 +1114,26 @@ def exhaustive_cases(rng, tier):
                 if tier == "quick":
                     for pol in POLICIES:
                         o = {"invalid_items": pol, "invalid_keys": rng.choice(POLICIES), "invalid_values": rng.choice(POLICIES)}
-                        out.append(gen_seq(rng, kind=kind, pattern=pat, opts=o, via="rule", ename="int", form=kind, cons=None))
+                        out.append(gen_seq(rng, kind=kind, pattern=pat, opts=o, via="rule", ename="int", form=kind, cons=None, union=False))
                 else:
                     for o in all_opts():
                         out.append(gen_seq(rng, kind=kind, pattern=pat, opts=o, via="rule",
-                                           ename=rng.choice(["int", "posint", "str3"]), form=kind, cons=None))
+                                           ename=rng.choice(["int", "posint", "str3"]), form=kind, cons=None, union=False))
+    # a container that is a condition of a union (Optional[...]): every kind x placement x policy x entry route; the
+    # elements include values that convert only leniently ('2' for int) - not offending, so they must be converted
+    for kind in SEQ_KINDS:
+        for n in range(0, 4):
+            for pat in placements(n, 2):
+                for pol in POLICIES:
+                    for via in ["rule", "schema"]:
+                        o = {"invalid_items": pol, "invalid_keys": rng.choice(POLICIES), "invalid_values": "throw"}
+                        out.append(gen_seq(rng, kind=kind, pattern=pat, opts=o, via=via, ename=rng.choice(["int", "posint", "float"]),
+                                           form=kind, cons=None, union=True))
+    for ent in itertools.product(["gg", "bg", "gb"], repeat=2):
+        for pk in POLICIES:
+            for pv in POLICIES:
+                o = {"invalid_items": "throw", "invalid_keys": pk, "invalid_values": pv}
+                out.append(gen_map(rng, entries=list(ent), opts=o, via="rule", kname="int", vname="int", union=True))
     # containers with validators of their own (min_length / max_length) x placements x the three item policies
     for kind in ["list", "tuple", "set"]:
         for cons in [{"min_length": 2}, {"min_length": 3}, {"max_length": 1}, {"max_length": 2}]:
@@ -1104,7 +1172,7 @@ def exhaustive_cases(rng, tier):
             for o in all_opts():
                 if tier == "quick" and o["invalid_items"] != "throw":
                     continue
-                out.append(gen_map(rng, entries=list(ent), opts=o, via="rule", kname="int", vname="int"))
+                out.append(gen_map(rng, entries=list(ent), opts=o, via="rule", kname="int", vname="int", union=False))
     # one field x every shape / on_error / presence / policy / addition / extra / strategy
     adds = ["none", True, False, "int"]
     for shape in ["required", "optional", "default"]:
@@ -1194,6 +1262,16 @@ def exhaustive_cases(rng, tier):
     seq_fields = lambda: [gen_field(rng, "a", shape="required", on_error=None, tname="str3"),
                           gen_field(rng, "b", shape="default", on_error=None, tname="posint"),
                           gen_field(rng, "c", shape="modereq_default", on_error=None, tname="int", req="w")]
+    # typed extra keys declared at class level; the call's options carry ANOTHER invalid_values than the class's
+    for cinv in POLICIES:
+        for rinv in POLICIES:
+            for xp in [["bad"], ["good", "bad"], ["bad", "good"]]:
+                for dfs in [True, False]:
+                    for add_t in ["int", "str3"]:
+                        out.append(gen_sequence(rng, fields=[gen_field(rng, "a", shape="default", on_error=None, tname="int")],
+                                                kinds=["plain", "plain"], patterns=[["good"], ["absent"]], dfs=dfs,
+                                                invs=[rinv, cinv], addition=add_t, cinv=cinv, radds=[True, True],
+                                                xpats=[xp, xp]))
     kinds = list(RUN_KINDS)
     for n in ([2] if tier == "quick" else [2, 3]):
         for ks in itertools.product(kinds, repeat=n):
@@ -1202,7 +1280,7 @@ def exhaustive_cases(rng, tier):
                     pats = [pat0] + [rng.choice([["bad", "good", "bad"], ["absent", "bad", "good"], ["good", "good", "bad"]])
                                      for _ in range(n - 1)]
                     out.append(gen_sequence(rng, fields=seq_fields(), kinds=list(ks), patterns=pats, dfs=dfs,
-                                            invs=["exclude"] * n))
+                                            invs=["exclude"] * n, addition=None))
     # one @property x on_error x invalid_values x good/bad result
     for oe in [None, "throw", "exclude", "preserve"]:
         for inv in POLICIES:
@@ -1246,14 +1324,16 @@ def model_line(case, io):
             return {"op": "skip"}      # validators of sets / mappings count after Python's own dedup: not modelled
         if kind in SEQ_KINDS:
             return dict({"op": "seq", "kind": kind, "policy": opts.get("invalid_items", "throw"), "items": pr["items"],
-                         "legacy": bool(case.get("legacy"))}, **cons_of(case["type"]))
+                         "legacy": bool(case.get("legacy")), "union": is_union(case["type"]),
+                         "legacy_union": bool(case.get("legacy_union"))}, **cons_of(case["type"]))
         if kind == "tuple_fixed":
             add = opts.get("addition")
             extra = "drop" if add is None else ("forbid" if add is False else ("keep" if add is True else "typed"))
             return {"op": "tuple_fixed", "policy": opts.get("invalid_items", "throw"), "xs": pr.get("xs") if "xs" in pr else None,
                     "tables": pr.get("tables", []), "extra": extra, "extra_table": pr.get("extra_table", [])}
         return {"op": "map", "pk": opts.get("invalid_keys", "throw"), "pv": opts.get("invalid_values", "throw"),
-                "has_vt": elems[1] is not None, "items": pr["items"]}
+                "has_vt": elems[1] is not None, "items": pr["items"], "union": is_union(case["type"]),
+                "legacy_union": bool(case.get("legacy_union"))}
     add = opts.get("addition")
     if case["op"] == "schema":
         addition = "ignore" if add is None else ("forbid" if add is False else ("keep" if add is True else "typed"))
@@ -1353,7 +1433,10 @@ class C11(Check):
             "freshly declared class.  Review round: containers with validators of their own (min_length / max_length / "
             "unique_items, incl. unhashable raw offenders; sets and mappings oracle-only), discriminated fields "
             "(Field(discriminator=...) over Union[P1, P2]) x shape x on_error x policy x strategy; the `preserve` sentence "
-            "is demanded whenever the strict parse of the input without the preserved offenders succeeds")
+            "is demanded whenever the strict parse of the input without the preserved offenders succeeds.  Round 4: "
+            "containers as a condition of a union (Optional[...] of every kind) with elements that convert only leniently; "
+            "sequences whose call-level options (invalid_values, addition) differ from the class-level ones, with typed "
+            "extra keys")
     assumptions = [
         "element/key/value/field converters are abstract in the theorems; in T2 they are sampled from the real code by parsing each element in isolation under the same options",
         "fail-fast parsing (collect_errors=False), no max_depth, fields without alias/no_input/field-level mode= (mode-dependent required, defaults and dependencies are modelled): outside this fragment the model does not speak",
@@ -1400,6 +1483,8 @@ class C11(Check):
             # data-first logs differ in insertion order from the strict run; the dicts they build must agree
             same = case["op"] == "schema" and "ok" in m and "ok" in mo["spec"] and \
                 canon(wrap_map(m["ok"])) == canon(wrap_map(mo["spec"]["ok"]))
+            if not same and case["op"] == "container" and is_union(case["type"]) and "err" in m and "err" in mo["spec"]:
+                same = True      # a union that rejects reports no item of its own
             if not same:
                 return f"LEAN: model {m} differs from the theorem's right-hand side {mo['spec']}"
         if case["op"] == "func":
@@ -1475,6 +1560,7 @@ class C11(Check):
             items, pol = pr["items"], opts.get("invalid_items", "throw")
             if items is None:
                 return self._expect(out, None, "input is not convertible to the origin type", case=case)
+            items = [r[:2] for r in items]
             good = [c for _, c in items if c is not None]
             nbad = len(items) - len(good)
             tdesc = case["type"]
@@ -1529,7 +1615,7 @@ class C11(Check):
             return self._expect(out, None, "input is not convertible to dict", case=case)
         has_vt = elems[1] is not None
         log, fail = [], False
-        for k, v, kc, vc in rows:
+        for k, v, kc, vc in (r[:4] for r in rows):
             if map_excluded(pk, pv, [k, v, kc, vc], has_vt):
                 continue                                   # exactly the excluded entries disappear
             if kc is None and pk != "preserve":
